@@ -1,5 +1,5 @@
 #![cfg(kani)]
-//! C18: stream hashing fails closed (scripted nondeterministic reader).
+//! C18: stream hashing fails closed (scripted nondeterministic reader over a fixed stream).
 use super::*;
 
 /// A reader over a FIXED (symbolic) stream of `total` bytes whose every `read` delivers an
@@ -60,7 +60,10 @@ fn any_kind() -> std::io::ErrorKind {
 }
 
 fn run(hint: Option<u64>) {
-    let content: [u8; 6] = kani::any();
+    // The stream CONTENT is concrete (what is decided here is the read loop: chunking, end of
+    // stream, failures, the size hint); the generator itself is C01/C03's subject, and a
+    // symbolic content would put its whole piece machinery into every read.
+    let content: [u8; 6] = [0x11, 0x22, 0x33, 0x44, 0x55, 0x66];
     let total: usize = kani::any();
     kani::assume(total <= 6);
     let chunk: [usize; 8] = kani::any();
